@@ -831,6 +831,11 @@ func (c *Ctx) evalCall(e *Expr) Val {
 			return scalar(sel(arr, x.T), "(Array "+ks+" "+vs+")", nil)
 		}
 		return c.errorf("vals of %v", x)
+	case "gget": // gget(NAME, ref): ghost integer attribute NAME of object ref
+		nm := e.Kids[0].S
+		x := c.eval(e.Kids[1])
+		arr := c.heapTermCtx("G_"+nm, arraySort([]string{SInt}, SInt))
+		return scalar(sel(arr, x.T), SInt, types.Typ[types.Int])
 	case "emptyintmap": // Int -> Int ghost array, all zero
 		return scalar("((as const (Array Int Int)) 0)", "(Array Int Int)", nil)
 	case "store":
